@@ -622,7 +622,7 @@ func ruleCastFresh(w *World, r *Report) {
 		if !ok || len(ret.Results) == 0 || bad {
 			return
 		}
-		v := ret.Results[0]
+		v := resolveSpill(ret.Results[0])
 		if !rootsAtDeep(v, p, 0) {
 			return
 		}
